@@ -135,7 +135,9 @@ CHECKS = {
          "from any directory listing while the lexicographic one fails from 11 chunks on. Correspondence X-proto-det: the real "
          "submit loop, jobs and callbacks driven entry by entry by chosen schedules, step-aligned with Proto.pstep (model "
          "402); correspondence X-chunk with "
-         "permuted completion order, amplified submit/close race, frequency columns, deadline. Partial: real timing is "
+         "permuted completion order, amplified submit/close race, frequency columns, deadline. Source-derived (lenient): "
+         "SRC_names_sort_key_inverts_writer_name and 3 more about the chunk-name template of preprocess.py and the sort-key slice "
+         "of every sort site of ndl.py / wh.py as the current text has them. Partial: real timing is "
          "a deadline.",
          "5 C04", "Coq proof (protocol invariant + termination measure over all schedules, window/concat lemmas) + schedule-controlled step-aligned correspondence + differential runs under a deadline"),
  "C18": ("proof", "Theorems C18_cov_identity, C18_pearson / C18_pearson_r2 (square-root free characterisation of Pearson's r over "
